@@ -74,6 +74,13 @@ type xnode struct {
 	in    []edgeIn
 	succs []*xnode
 	mark  int
+	tgt   map[*ssa.BasicBlock]succRes // memoised successor decisions (the DAG built by expand is the one executed)
+}
+
+type succRes struct {
+	n    *xnode
+	kind string
+	li   *loopInfo
 }
 
 type retRec struct {
@@ -117,6 +124,10 @@ type Frame struct {
 	callOrd   map[*ssa.Call]int
 	loopEntry map[*loopInfo]*Mem
 	decHead   map[*loopInfo]*Term
+	inlineSet map[string]bool   // callees expanded in place in this verification (from the top contract)
+	unp       []*unpObj         // unpacked objects (shared with inlined frames)
+	unpIn     map[*unpObj]Val   // inlined frame: objects at entry
+	unpOut    map[*unpObj]Val   // inlined frame: objects at return
 }
 
 type allocRec struct {
@@ -289,7 +300,11 @@ func (f *Frame) tailSize(b *ssa.BasicBlock) int {
 			continue
 		}
 		seen[x] = true
-		if len(seen) > 10 || f.loopOf[x] != nil {
+		lim := 10
+		if f.con != nil && f.con.TailSize > 0 {
+			lim = f.con.TailSize
+		}
+		if len(seen) > lim || f.loopOf[x] != nil {
 			ok = false
 			break
 		}
@@ -306,6 +321,13 @@ func (f *Frame) tailSize(b *ssa.BasicBlock) int {
 	}
 	f.tails[b] = r
 	return r
+}
+
+func (f *Frame) nodeCap() int {
+	if f.con != nil && f.con.TailSize > 10 {
+		return 3000
+	}
+	return 400
 }
 
 type loopMode int
@@ -332,6 +354,18 @@ func (li *loopInfo) mode() (loopMode, int) {
 // succTarget computes the node reached over CFG edge u -> v from node n, or
 // (nil, kind) for a cut back edge ("back") or an exhausted unrolling ("unwind").
 func (f *Frame) succTarget(n *xnode, v *ssa.BasicBlock) (*xnode, string, *loopInfo) {
+	if r, ok := n.tgt[v]; ok {
+		return r.n, r.kind, r.li
+	}
+	a, b, c := f.succTarget0(n, v)
+	if n.tgt == nil {
+		n.tgt = map[*ssa.BasicBlock]succRes{}
+	}
+	n.tgt[v] = succRes{a, b, c}
+	return a, b, c
+}
+
+func (f *Frame) succTarget0(n *xnode, v *ssa.BasicBlock) (*xnode, string, *loopInfo) {
 	u := n.blk
 	cnt := map[int]int{}
 	for k, c := range n.cnt {
@@ -361,7 +395,7 @@ func (f *Frame) succTarget(n *xnode, v *ssa.BasicBlock) (*xnode, string, *loopIn
 	}
 	tag := n.tag
 	if len(v.Preds) > 1 {
-		if f.tailSize(v) > 0 && len(f.nodes) < 400 && !f.noTailSplit {
+		if f.tailSize(v) > 0 && len(f.nodes) < f.nodeCap() && !f.noTailSplit {
 			tag = fmt.Sprintf("%s/%d", n.tag, u.Index)
 		} else {
 			tag = ""
@@ -601,6 +635,21 @@ func (f *Frame) run(args []Val, free []Val, mem *Mem, gh *Ghost, reach *Term, st
 	for i, fv := range f.fn.FreeVars {
 		env0[fv] = free[i]
 	}
+	if f.top && f.con != nil && len(f.con.Unpack) > 0 {
+		for i, p := range f.fn.Params {
+			for _, n := range f.con.Unpack {
+				if n == p.Name() {
+					f.unp = append(f.unp, &unpObj{name: n, base: args[i].(Scalar).T, et: p.Type().Underlying().(*types.Pointer).Elem()})
+				}
+			}
+		}
+		st0x := &execState{env: env0, mem: mem}
+		f.unpackAll(st0x)
+		e.trusted["unpacked receiver of "+fnName(f.fn)+": its memory is accessed only through the receiver inside the function"] = true
+	}
+	for o, v := range f.unpIn {
+		env0[unpackKey{o}] = v
+	}
 	order[0].in = []edgeIn{{cond: reach, env: env0, mem: mem, gh: gh, st: st0}}
 	for _, n := range order {
 		st := f.mergeIn(n)
@@ -653,6 +702,18 @@ func (f *Frame) run(args []Val, free []Val, mem *Mem, gh *Ghost, reach *Term, st
 	}
 	if f.top {
 		f.checkEnsuresPaths(flags)
+	} else if len(f.unp) > 0 {
+		f.unpOut = map[*unpObj]Val{}
+		for _, o := range f.unp {
+			v := f.rets[len(f.rets)-1].env[unpackKey{o}]
+			for i := len(f.rets) - 2; i >= 0; i-- {
+				w := f.rets[i].env[unpackKey{o}]
+				if !sameVal(w, v) {
+					v = e.mergeVal(conds[i], w, v)
+				}
+			}
+			f.unpOut[o] = v
+		}
 	}
 	return res, outMem, e.mergeGhost(conds, ghs), flags, tb.Or(conds...)
 }
@@ -820,6 +881,28 @@ func (f *Frame) cutLoop(n *xnode, li *loopInfo, st *execState) {
 	st.mem = f.havocLoopMem(li, st)
 	if st.mem != memBefore {
 		st.gh = e.freshGhost(fmt.Sprintf(".L%d", li.ordinal))
+	}
+	// unpacked objects are loop-carried state too: if the body may store to
+	// them they are arbitrary at the loop head
+	if len(f.unp) > 0 {
+		stores := false
+		for b := range li.body {
+			for _, ins := range b.Instrs {
+				switch ins.(type) {
+				case *ssa.Store, *ssa.Call:
+					stores = true
+				}
+			}
+		}
+		if stores {
+			for _, o := range f.unp {
+				var inv2 []*Term
+				st.env[unpackKey{o}] = e.freshVal(fmt.Sprintf("unpacked.%s.L%d", o.name, li.ordinal), o.et, &inv2)
+				for _, t := range inv2 {
+					e.assume(tb.Implies(st.reach, t))
+				}
+			}
+		}
 	}
 	st.st.cut = true
 	// 3. assume invariant (ghost variables are arbitrary values satisfying it)
@@ -1014,6 +1097,9 @@ func (f *Frame) execBlock(n *xnode, st *execState) {
 			return
 		case *ssa.Return:
 			f.runDefers(st)
+			if f.top && len(f.unp) > 0 {
+				f.packAll(st)
+			}
 			vals := make([]Val, len(x.Results))
 			for i, r := range x.Results {
 				vals[i] = f.operand(st.env, r)
@@ -1033,6 +1119,11 @@ func (f *Frame) execBlock(n *xnode, st *execState) {
 			f.defers = append(f.defers, x)
 			st.env[deferKey{x}] = Scalar{st.reach}
 		case *ssa.Store:
+			if fr, ok := f.operand(st.env, x.Addr).(FieldRefV); ok {
+				obj := st.env[unpackKey{fr.o}]
+				st.env[unpackKey{fr.o}] = setPath(obj, fr.path, f.operand(st.env, x.Val))
+				continue
+			}
 			addr := f.operand(st.env, x.Addr).(Scalar).T
 			f.nilCheck(st, x.Addr, addr, x.Pos())
 			v := f.operand(st.env, x.Val)
@@ -1061,6 +1152,156 @@ func (f *Frame) execBlock(n *xnode, st *execState) {
 			panic(fmt.Sprintf("%s: unsupported instruction %T", f.fn.Name(), ins))
 		}
 	}
+}
+
+// ---------------------------------------------------------------------------
+// Unpacked receivers. For a pointer parameter named in an "unpack" clause the
+// pointee struct is kept as a value in the execution state: field loads and
+// stores become register operations; the struct is written back to memory
+// ("packed") before every call that receives the pointer and at every return,
+// and re-read afterwards. This is sound under the aliasing discipline that the
+// object's memory is accessed only through that parameter inside the function
+// (recorded as an assumption).
+
+type unpObj struct {
+	name string
+	base *Term
+	et   types.Type
+}
+
+type unpackKey struct{ o *unpObj }
+
+func (unpackKey) Name() string                  { return "unpacked" }
+func (unpackKey) String() string                { return "unpacked" }
+func (unpackKey) Type() types.Type              { return nil }
+func (unpackKey) Parent() *ssa.Function         { return nil }
+func (unpackKey) Referrers() *[]ssa.Instruction { return nil }
+func (unpackKey) Pos() token.Pos                { return token.NoPos }
+
+// FieldRefV designates a field (path) of an unpacked object.
+type FieldRefV struct {
+	o    *unpObj
+	path []int
+	typ  types.Type // type of the designated field
+}
+
+// unpackedAt: does the pointer value v designate an unpacked object? Decided
+// on the (hash-consed) pointer term, so that inlined callees that receive the
+// pointer operate on the unpacked object too.
+func (f *Frame) unpackedAt(v Val) (*unpObj, bool) {
+	if len(f.unp) == 0 {
+		return nil, false
+	}
+	s, ok := v.(Scalar)
+	if !ok {
+		return nil, false
+	}
+	for _, o := range f.unp {
+		if o.base == s.T {
+			return o, true
+		}
+	}
+	return nil, false
+}
+
+func getPath(v Val, path []int) Val {
+	for _, i := range path {
+		v = v.(StructV).Fields[i]
+	}
+	return v
+}
+
+func setPath(v Val, path []int, nv Val) Val {
+	if len(path) == 0 {
+		return nv
+	}
+	sv := v.(StructV)
+	fs := append([]Val{}, sv.Fields...)
+	fs[path[0]] = setPath(fs[path[0]], path[1:], nv)
+	return StructV{fs}
+}
+
+// packAll writes every unpacked object back to memory, as one region whose
+// bytes come from a scratch memory holding the object: a read at an address
+// outside the object is then guarded by a single range test instead of one
+// equality per stored byte.
+func (f *Frame) packAll(st *execState) {
+	e := f.e
+	for _, o := range f.unp {
+		obj, ok := st.env[unpackKey{o}]
+		if !ok {
+			continue
+		}
+		stt, isStruct := o.et.Underlying().(*types.Struct)
+		sv, isSV := obj.(StructV)
+		if !isStruct || !isSV {
+			inner := e.store(st.mem, o.base, o.et, obj)
+			st.mem = e.mc.Region(st.mem, o.base, e.tb.ConstU(uint64(sizes.Sizeof(o.et)), 64), inner)
+			continue
+		}
+		// only the fields whose value differs from what memory holds are
+		// written (padding and untouched fields keep their bytes)
+		offs := structOffsets(stt)
+		inner := st.mem
+		changed := false
+		for i := 0; i < stt.NumFields(); i++ {
+			ft := stt.Field(i).Type()
+			addr := e.tb.Add(o.base, e.tb.ConstU(uint64(offs[i]), 64))
+			if sameVal(sv.Fields[i], e.load(st.mem, addr, ft)) {
+				continue
+			}
+			inner = e.store(inner, addr, ft, sv.Fields[i])
+			changed = true
+		}
+		if changed {
+			f.frameCheck(st, o.base, e.tb.ConstU(uint64(sizes.Sizeof(o.et)), 64), f.fn.Pos(), "unpacked "+o.name+" written back")
+			st.mem = e.mc.Region(st.mem, o.base, e.tb.ConstU(uint64(sizes.Sizeof(o.et)), 64), inner)
+		}
+	}
+}
+
+// unpackAll (re)loads every unpacked object from memory.
+func (f *Frame) unpackAll(st *execState) {
+	for _, o := range f.unp {
+		st.env[unpackKey{o}] = f.e.load(st.mem, o.base, o.et)
+	}
+}
+
+// packedCall runs a call that is not inlined: if it may receive an unpacked
+// object (directly as an argument, or in an unknown way), the objects are in
+// memory for the duration of the call.
+func (f *Frame) packedCall(st *execState, args []Val, always bool, call func() Val) Val {
+	if len(f.unp) == 0 {
+		return call()
+	}
+	need := always
+	for _, a := range args {
+		if _, isFn := a.(FuncV); isFn {
+			need = true // a closure may have captured the pointer
+		}
+		mapVal(a, func(t *Term) *Term {
+			for _, o := range f.unp {
+				if t == o.base {
+					need = true
+				}
+				if t.op == "bvadd" {
+					for _, m := range t.args {
+						if m == o.base {
+							need = true
+						}
+					}
+				}
+			}
+			return t
+		})
+	}
+	if !need {
+		return call()
+	}
+	f.packAll(st)
+	r := call()
+	f.unpackAll(st)
+	return r
 }
 
 // ghostKey is the environment key of a name bound by an "after call" clause.
